@@ -55,15 +55,15 @@ claim('C06', 'Coq refinement proof (file/dict/redis bookkeeping refine a finite 
       '(with/without compress_numpy, packed or not, also after a `jug pack` killed half-way: keys both packed and loose), the dict store (with/without backing file) and the redis store return what a finite map '
       'returns and load = last write; list is exact and duplicate-free; remove is truthful; pack and reopen are the identity; the P/N/empty/raw-npy '
       'framing decodes to what was encoded given the byte codecs.  Tie: random operation sequences on 6 real store configurations, every '
-      'observed result and the final packed/raw/encoded split compared with the model in coqc.',
+      'observed result and the final packed/raw/encoded split compared with the model in coqc; dumps that FAIL (encoding raises) and dumps IN PROGRESS on another store object must not create keys (list / can_load / pack / cleanup answers compared while the temp file exists); falsy values (None, 0, \'\', b\'\', [], {}, 0-d zero arrays, NumPy zero scalars) with can_load / list compared right after pack and killed pack; payloads over 16 MiB.',
       'Kernel + vm_compute; pickle/np.save/zlib/base64 are hypotheses of the framing theorems (sampled every run); fake redis server; '
-      'value identity = content+type/dtype/shape as canonicalised by the harness; one store object at a time.',
+      'value identity = content+type/dtype/shape as canonicalised by the harness; one store object at a time except for the in-progress dumps (a second object blocked inside its dump).',
       'DESIGN.md sec. 3 C06')
 claim('C10', 'Coq proof (set equations of cleanup per mode and backend for ANY store content) + differential evaluation of the model in coqc against the real `jug cleanup` command',
       'Theorems (Props/C10.v): for every store content (active and foreign results, packed/unpacked/both, held and failed locks, temp files) '
       'and every active set: default and --keep-locks leave exactly results /\\ active; --keep-locks leaves all locks; --locks-only removes all '
       'locks and nothing else; --failed-only removes exactly the failed locks; on file (packed or not), dict and redis; link to the execution protocol (Proofs/ExecCleanupFacts.v): on any store representing a protocol state `--locks-only` / `--failed-only` produce a store representing the state after the protocol\'s ERemoveLocks / EReleaseFailed events (recovery of C13, retry of C11), and every mode given the jugfile\'s tasks leaves exactly the results the workers stored.  Tie: generated '
-      'store contents x 4 modes x 4 backends through the real CleanupCommand; list()/listlocks()/failed marks compared with the model.',
+      'store contents x 4 modes x 4 backends through the real CleanupCommand; list()/listlocks()/failed marks compared with the model; jugfiles that create tasks indirectly (CachedFunction, mapreduce.map, iteratetask, barrier) with the active set = what the generator knows the jugfile defines (a difference to task.alltasks is a violation); another process storing / packing / removing between the command\'s open and its cleanup (redis: full equations + model; file stores: no needed result lost, nothing resurrected - the stale in-memory pack of file_store is recorded in DESIGN.md Appendix C).',
       'Kernel + vm_compute; model of os.walk filtering/pack pruning hand-written and tied by differential cases; fake redis; '
       'no concurrent modification during the command.',
       'DESIGN.md sec. 3 C10')
@@ -109,7 +109,7 @@ claim('C05', 'Coq proof (invariant of a file-system model with volatile/durable 
       'stays available in every view; redis dump is one SET.  Tie: os-level traces of real dump/re-dump/pack/remove/cleanup (pickles 0 B-5 MB, '
       'raw and compressed arrays) must be accepted, reproduce the real listing, and every update_pack unlink must be covered by the durable pack; '
       'every kill / power-loss image and every reader instant of those runs is checked with a fresh file_store, which must also be able to WRITE again '
-      '(re-dump, pack, remove: residue never blocks a later write); redis values whose encoding crosses 4/32 MiB with a reader before every command.  Found and fixed: jug pack could '
+      '(re-dump, pack, remove: residue never blocks a later write); redis values whose encoding crosses 4/32 MiB with a reader before every command; exceptions travelling through dump() mid-write (transient pickling failures, OSError / ValueError / KeyboardInterrupt on the raw .npy and the pickle branch: D25); tempfiles/ on another filesystem (every rename out of it fails with EXDEV: the operation raises, no final name is opened / truncated / written).  Found and fixed: jug pack could '
       'lose results on power loss (6a45d89).',
       'Kernel + vm_compute; the Fs crash model is the hypothesis (fsync of a directory makes it and its entries durable; un-fsynced data is garbage; '
       'later directory operations independently lost); fin/complete/unlink entitlement/covers decided by the harness (strict decoder, API arguments); '
